@@ -149,6 +149,14 @@ class SourceMapping:
         self.line = line_number
         self.column = column
 
+    def __eq__(self, other: object) -> bool:
+        if not isinstance(other, SourceMapping):
+            return False
+        return self.line == other.line and self.column == other.column
+
+    def __hash__(self) -> int:
+        return hash((self.line, self.column))
+
     def serialize(self) -> list[Any]:
         return [self.line, self.column]
 
